@@ -185,6 +185,13 @@ class Ctx:
                 self.violation(sig, plan, detail)
         except hypothesis.errors.FailedHealthCheck as e:
             raise HarnessError(f"generator health check failed: {e}")
+        except hypothesis.errors.Flaky:
+            # Hypothesis re-ran the failing example and it passed (real threads: schedule-dependent).  The oracle did see
+            # the violation on a real run of the real code, so it is reported, marked as not reproducing at once.
+            if not last:
+                raise
+            for sig, detail in last["unknown"]:
+                self.violation(sig, last["plan"], "[did not reproduce on an immediate re-run] " + str(detail))
 
     # -- sharding -------------------------------------------------------
     def fork(self, shard):
